@@ -61,14 +61,22 @@ def sampling_facts(chk):
     f["counter"] = subs[0].value.id if subs else None
     # sorted order: the assignment whose value sorts cvr_list
     so = [st for st in fn.body if isinstance(st, ast.Assign) and any(
-        isinstance(c, ast.Call) and norm(c.func) == "sorted" and c.args and "cvr_list" in norm(c.args[0]) for c in ast.walk(st.value))]
+        isinstance(c, ast.Call) and norm(c.func) == "sorted" and c.args and "cvr_list" in norm(c.args[0]) for c in ast.walk(st.value))
+        and st.lineno < whiles[0].lineno]
+    incs = [s for s in walk_local(whiles[0]) if isinstance(s, ast.AugAssign) and isinstance(s.target, ast.Name)]
+    names = {s.target.id for s in incs}
     if len(so) != 1:
-        raise AnalysisError("consistent_sampling: sorted order not found")
+        # by role: the sequence the walk index runs over.  Whatever builds it is then judged by R1 (a partial sort, a heap, a
+        # pre-filtered list is not "all cards in ascending sample-number order")
+        seqs = {n.value.id for n in walk_local(whiles[0]) if isinstance(n, ast.Subscript) and isinstance(n.value, ast.Name)
+                and isinstance(n.slice, ast.Name) and n.slice.id in names}
+        so = [st for st in fn.body if isinstance(st, ast.Assign) and len(st.targets) == 1 and isinstance(st.targets[0], ast.Name)
+              and st.targets[0].id in seqs and st.lineno < whiles[0].lineno][-1:]
+        if len(so) != 1:
+            raise AnalysisError("consistent_sampling: the sequence the walk runs over was not found")
     f["sorted_stmt"] = so[0]
     f["sorted_name"] = norm(so[0].targets[0])
     # walk index: the name augmented in the while body that indexes the sorted order
-    incs = [s for s in walk_local(whiles[0]) if isinstance(s, ast.AugAssign) and isinstance(s.target, ast.Name)]
-    names = {s.target.id for s in incs}
     idx_names = [n for n in names if f"{f['sorted_name']}[{n}]" in norm(whiles[0])]
     if len(idx_names) != 1:
         raise AnalysisError("consistent_sampling: walk index not found")
@@ -124,11 +132,11 @@ def run(chk):
 def r1(chk, f):
     fn, where = f["fn"], W("CVR.consistent_sampling")
     st = f["sorted_stmt"]
-    call = [c for c in ast.walk(st.value) if isinstance(c, ast.Call) and norm(c.func) == "sorted"][0]
-    kw = {k.arg: k.value for k in call.keywords}
+    call = ([c for c in ast.walk(st.value) if isinstance(c, ast.Call) and norm(c.func) == "sorted"] + [None])[0]
+    kw = {k.arg: k.value for k in call.keywords} if call is not None else {}
     ok = False
-    detail = {"sorted": norm(call)[:120]}
-    if "key" in kw and isinstance(kw["key"], ast.Lambda) and "reverse" not in kw and len(call.args) == 1:
+    detail = {"sorted": norm(call)[:120]} if call is not None else {"sequence": norm(st.value)[:160]}
+    if call is not None and "key" in kw and isinstance(kw["key"], ast.Lambda) and "reverse" not in kw and len(call.args) == 1:
         lam = kw["key"]
         p = lam.args.args[0].arg
         body = norm(lam.body)
@@ -183,6 +191,16 @@ def result_rule(chk, f, rule):
             detail["result"] = norm(expr)
             ok = norm(elt) == norm(tgt) and norm(it) == f["sorted_name"] and len(ifs) == 1 and f["selected"] is not None \
                 and norm(ifs[0]) == f"{norm(tgt)}in{f['selected']}"
+        elif isinstance(expr, ast.Call) and norm(expr.func) == "sorted" and len(expr.args) == 1 and f["selected"] is not None \
+                and norm(expr.args[0]) == f["selected"]:
+            # the same thing said directly: the *set* of selected cards, sorted by sample number
+            kw = {k.arg: k.value for k in expr.keywords}
+            inits = [s for s in fn.body if isinstance(s, ast.Assign) and norm(s.targets[0]) == f["selected"] and s.lineno < f["while"].lineno]
+            is_set = len(inits) == 1 and ((isinstance(inits[0].value, ast.Call) and norm(inits[0].value.func) == "set") or isinstance(inits[0].value, (ast.Set, ast.SetComp)))
+            detail["result"] = norm(expr)
+            if set(kw) == {"key"} and isinstance(kw["key"], ast.Lambda) and is_set:
+                p_ = kw["key"].args.args[0].arg
+                ok = norm(kw["key"].body) == f"cvr_list[{p_}].sample_num"
     chk.ob(rule, where, "reported-in-sample-number-order-without-repetition", ok,
            "the reported sample is the sorted (sample-number) order filtered by membership in the set of selected cards: every selected "
            "card exactly once, in sample-number order -- in first and in continued rounds alike", node=rets[0] if rets else fn, strength="N", **detail)
@@ -202,7 +220,15 @@ def any_guard(node):
 def r2(chk, f):
     fn, where, w = f["fn"], W("CVR.consistent_sampling"), f["while"]
     # loop condition: any contest in progress
-    g = any_guard(w.test)
+    test = w.test
+    if isinstance(test, ast.BoolOp) and isinstance(test.op, ast.And):
+        # a bounds guard on the walk index (`inx < len(<order>)`) cannot end the walk early for sample sizes within the cards
+        # available, which is what the property quantifies over
+        bound = (f"{f['inx']}<len({f['sorted_name']})", f"len({f['sorted_name']})>{f['inx']}", f"{f['inx']}<len(cvr_list)", f"len(cvr_list)>{f['inx']}")
+        rest = [v for v in test.values if norm(v) not in bound]
+        if len(rest) == 1:
+            test = rest[0]
+    g = any_guard(test)
     ok = False
     if g:
         elt, con = g
@@ -350,6 +376,14 @@ def r6(chk):
             base = so[0][0] if so else None
             ok = len(so) == 1 and norm(expand_locals(so[0][1], fn, stop=(iv,))) == iv and parent(so[0][2]) is l and isinstance(base, ast.Subscript) \
                 and norm(base.value) in returned
+            # ... of the sample *as drawn*: the parameter is not re-bound, sorted, de-duplicated or otherwise rearranged first
+            keeps_order = lambda a_: isinstance(a_, ast.Assign) and isinstance(a_.value, ast.Call) and a_.value.args \
+                and norm(a_.value.func) in ("list", "tuple", "np.asarray", "np.array", "np.asanyarray") and norm(a_.value.args[0]) == "sample"
+            touched = [norm(x)[:60] for x in walk_local(fn) if
+                       (isinstance(x, ast.Name) and x.id == "sample" and isinstance(x.ctx, (ast.Store, ast.Del)) and not keeps_order(parent(x))) or
+                       (isinstance(x, ast.Call) and isinstance(x.func, ast.Attribute) and norm(x.func.value) == "sample"
+                        and x.func.attr in ("sort", "reverse", "remove", "pop", "insert", "append", "extend", "clear"))]
+            ok = ok and not touched
         chk.ob("C07.R6", f"{rel}:{q}", "selection-order-recorded", ok,
                "the position of each card in the drawn sample is recorded as its selection_order", node=fn, strength="N")
     # (putting a sample back into selection order is what prep_polling_sample does: a call of it counts as its body)
